@@ -92,6 +92,11 @@ Definition sel_post (s : sel) (id : nat) (l r : tree) (k : K) (ie : binding) (S 
             end in
   set DYN id [] (k ie (getb FLAG id S1) S1).
 
+(* Entry-time resets (since /repo 23d12cd: Union / ElseIf set left_evaluated = right_evaluated = False, ExceptIf / Alternative /
+   Next clear `_conclusion_` when `_evaluate__` is entered, once per incoming binding) are not written out below: inside one
+   evaluation every activation of a node runs to completion before the node is entered again, so on entry REV and DYN of
+   the node are already clear (the invariant [Pre] of RuleMultiProofs.v, proved for every tree: [inner_all]) and LEV is
+   written before it is read in every row; the resets only matter after an ABANDONED iterator (property C03). *)
 Section Eval.
   Variable W : list elem.
 
